@@ -456,7 +456,8 @@ static int liq_load(struct module_data *m, HIO_HANDLE *f, const int start)
 	D_(D_INFO "rows: %d  size: %d\n", lp.rows, lp.size);
 
 	mod->xxp[i]->rows = lp.rows;
-	libxmp_alloc_tracks_in_pattern(mod, i);
+	if (libxmp_alloc_tracks_in_pattern(mod, i) < 0)
+	    return -1;
 
 	row = 0;
 	channel = 0;
